@@ -179,7 +179,9 @@ Proof.
   - rewrite IHl. f_equal. destruct alt as [b|]; [rewrite IHl|]; reflexivity.
   - destruct (ri rid) as [[[iln arg] body]|]; reflexivity.
   - f_equal. destruct body as [b|]; [rewrite IHl|]; reflexivity.
-  - destruct (cb cid) as [b|]; reflexivity.
+  - destruct (cb cid) as [b|]; [|reflexivity]. cbn [strip_s]. f_equal. f_equal.
+    rewrite !map_map. apply map_ext. intro x.
+    destruct x; try reflexivity. destruct body as [bd|]; [|reflexivity]. cbn [strip_s]. rewrite IHl. reflexivity.
   - f_equal. destruct body as [b|]; [rewrite IHl|]; reflexivity.
 Qed.
 
@@ -221,7 +223,8 @@ Proof.
     assert (Hs : map (fun sl : nat * bytes * list stmt => match sl with (sln, sn, b) => (sln, sn, map (rw_stmt cb ri f) b) end) slots =
                  map (fun sl : nat * bytes * list stmt => match sl with (sln, sn, b) => (sln, sn, map (rw_stmt cb' ri' f) b) end) slots).
     { apply map_ext. intros [[sln sn] b]. rewrite IHl. reflexivity. }
-    rewrite Hs. reflexivity.
+    rewrite Hs. destruct (cb' cid) as [b|]; [|reflexivity]. f_equal. f_equal.
+    apply map_ext. intro x. destruct x; try reflexivity. destruct body as [bd|]; [rewrite IHl|]; reflexivity.
   - f_equal. destruct body as [b|]; [rewrite IHl|]; reflexivity.
 Qed.
 
